@@ -436,6 +436,10 @@ pub fn c09(cfg: &Value) {
             })
         })
         .collect();
+    // "free" variant: the writer is never stalled, so overflows race with its drain/flush/report
+    if cfg["free"].as_bool().unwrap_or(false) {
+        gate.grant(producers * n + 2);
+    }
     // non-blocking: every append returns although the writer has at most `early` permits - a
     // blocking append would be reported by loom as a deadlock right here
     for t in threads {
